@@ -21,7 +21,7 @@ GEN_MODULES = ["mashumaro.core.meta.code.builder", "mashumaro.core.meta.types.pa
 
 
 def _rec_exec(code, g=None, l=None):
-    rec = {"code": code, "g": g, "l": l, "gnames": None, "lnames": None, "pre_l": set(l.keys()) if isinstance(l, dict) else set()}
+    rec = {"code": code, "g": g, "l": l, "gnames": None, "lnames": None, "pre_l": set(l.keys()) if isinstance(l, dict) else set(), "pre_g": set(g.keys()) if isinstance(g, dict) else set()}
     CAPTURED.append(rec)
     _GIDS.add(id(g))
     return builtins.exec(code, g, l)
@@ -122,6 +122,15 @@ def _GLOBAL_IDS():
     return _GIDS
 
 
+def _tb_has(x: BaseException, fname: str) -> bool:
+    tb = x.__traceback__
+    while tb is not None:
+        if tb.tb_frame.f_code.co_name == fname:
+            return True
+        tb = tb.tb_next
+    return False
+
+
 def _holderish(obj) -> bool:
     if isinstance(obj, (types.ModuleType, type)):
         return True
@@ -139,15 +148,22 @@ def own_making(e: BaseException):
     for x in exc_chain(e):
         fn, co = innermost_frame_file(x)
         if isinstance(x, SyntaxError) and x.filename == "<string>":
-            return "SyntaxError", f"SyntaxError in generated code: {x.text!r}"
+            return "SyntaxError", f"SyntaxError in generated code: {x.text!r}", (x.text or "")
+        if isinstance(x, NameError) and fn in ("<string>", "<string-not-generated>") and co == "<module>" and _tb_has(x, "evaluate_forward_ref"):
+            # the library evaluates a ForwardRef itself, in a namespace of its own choosing
+            return type(x).__name__, f"{type(x).__name__}: {x} (in {co}, evaluate_forward_ref)", "<forward-ref>" + str(getattr(x, "name", None))
         if fn != "<string>":
             continue
         if isinstance(x, NameError):
-            return type(x).__name__, f"{type(x).__name__}: {x} (in {co})"
+            nm = getattr(x, "name", None)
+            if co == "<module>" and _tb_has(x, "evaluate_forward_ref"):
+                nm = "<forward-ref>" + str(nm)
+            return type(x).__name__, f"{type(x).__name__}: {x} (in {co})", nm
         if isinstance(x, AttributeError):
             obj = getattr(x, "obj", None)
             if obj is not None and _holderish(obj):
-                return "AttributeError", f"AttributeError: {x} (in {co})"
+                on = obj.__name__ if isinstance(obj, (types.ModuleType, type)) else type(obj).__name__
+                return "AttributeError", f"AttributeError: {x} (in {co})", f"{on}.{getattr(x, 'name', '?')}"
     return None
 
 
@@ -168,7 +184,7 @@ def unresolved_names(rec) -> list[tuple[str, str]]:
     try:
         top = compile(rec["code"], "<string>", "exec")
     except SyntaxError as e:
-        return [("<syntax>", str(e))]
+        return []     # reported as SyntaxError by the build
     g = rec["gnames"] if rec["gnames"] is not None else set(rec["g"].keys())
     l = rec["lnames"] if rec["lnames"] is not None else set()
     for co, depth in code_objects(top):
@@ -190,6 +206,7 @@ class _Chains(ast.NodeVisitor):
     def __init__(self):
         self.scopes: list[set] = []
         self.chains: list[tuple[str, list[str], bool]] = []   # (root, attrs, in_function)
+        self.local_chains: list[tuple[str, list[str]]] = []  # chains rooted at a local name
 
     def _bound(self, fn) -> set:
         b = set()
@@ -235,6 +252,8 @@ class _Chains(ast.NodeVisitor):
         if isinstance(cur, ast.Name) and isinstance(node.ctx, ast.Load):
             if not any(cur.id in s for s in self.scopes):
                 self.chains.append((cur.id, attrs[::-1], bool(self.scopes)))
+            else:
+                self.local_chains.append((cur.id, attrs[::-1]))
             return
         self.visit(cur)
 
@@ -280,6 +299,25 @@ def unresolved_chains(rec) -> list[str]:
                 break
             obj = nxt
             path += "." + a
+    return out
+
+
+def shadowed_module_roots(rec, module_roots: set) -> list[str]:
+    """a dotted name whose root is meant to be a schema module but is, where it is evaluated, a
+    local name of the generated function or a global bound to something that is not a module"""
+    out = []
+    try:
+        tree = ast.parse(rec["code"])
+    except SyntaxError:
+        return out
+    v = _Chains()
+    v.visit(tree)
+    for root, attrs in v.local_chains:
+        if root in module_roots and attrs and attrs[0][:1].isupper():
+            out.append(f"{root}.{attrs[0]} (root is a local name of the generated function)")
+    for root, attrs, in_fn in v.chains:
+        if root in module_roots and root in rec["g"] and not isinstance(rec["g"][root], types.ModuleType):
+            out.append(f"{root}.{attrs[0] if attrs else ''} (root is bound to {type(rec['g'][root]).__name__}, not to the module)")
     return out
 
 
@@ -402,6 +440,7 @@ class SchemaRun:
         self.calls = 0
         self.module = None
         self.errors_seen: dict[str, int] = {}
+        self.info: list[str] = []
 
     def finding(self, kind, what, **kw):
         self.findings.append({"kind": kind, "what": what, **kw})
@@ -421,7 +460,7 @@ class SchemaRun:
             own = own_making(e)
             self.errors_seen[type(e).__name__] = self.errors_seen.get(type(e).__name__, 0) + 1
             if own:
-                self.finding("own-" + own[0], own[1], entry=label, input=_short(a), exc=own[1])
+                self.finding("own-" + own[0], own[1], entry=label, input=_short(a), exc=own[1], name=own[2])
             return False, None
         finally:
             if len(CAPTURED) > n0:
@@ -451,12 +490,12 @@ def run_schema(schema: dict, rng, exercise: int = 40) -> SchemaRun:
     try:
         with contextlib.redirect_stdout(out), warnings.catch_warnings():
             warnings.simplefilter("ignore")
-            builtins.exec(compile(schema["src"], f"<{name}>", "exec"), mod.__dict__)
+            builtins.exec(compile(schema["src"], f"<{name}>", "exec", dont_inherit=True), mod.__dict__)
     except Exception as e:   # noqa
         sr.build_error = e
         own = own_making(e)
         if own:
-            sr.finding("own-" + own[0], "at class creation: " + own[1], entry="<module>", input=None, exc=own[1])
+            sr.finding("own-" + own[0], "at class creation: " + own[1], entry="<module>", input=None, exc=own[1], name=own[2])
         seal(start)
         sr.programs = CAPTURED[start:]
         return sr
@@ -541,6 +580,8 @@ def run_schema(schema: dict, rng, exercise: int = 40) -> SchemaRun:
                        program=rec["code"], name=n)
         for ch in unresolved_chains(rec):
             sr.finding("static-unresolved-attr", f"generated code evaluates {ch} which does not exist", program=rec["code"], name=ch)
+        for ch in shadowed_module_roots(rec, {schema["module"].split(".")[0]}):
+            sr.finding("static-shadowed-module", f"generated code evaluates {ch}", program=rec["code"], name=ch)
     # holder attributes read must exist on the object they are read from (after the build)
     for rec in sr.programs:
         if "CodeBuilder(" in rec["code"]:
@@ -592,7 +633,7 @@ def check_rendered_identity(sr: SchemaRun, d: dict):
     for key, cs in by_render.items():
         distinct = list({id(c): c for c in cs}.values())
         if len(distinct) > 1:
-            sr.finding("same-rendered-name", f"{len(distinct)} distinct classes render as {key}", name=key)
+            sr.info.append(f"{len(distinct)} distinct classes render as {key}")
 
 
 def check_identity(sr: SchemaRun, d: dict, inst, back):
@@ -608,7 +649,7 @@ def check_identity(sr: SchemaRun, d: dict, inst, back):
         for x, y in _pairs(a, b):
             if type(x) is c and type(y) is not c:
                 sr.finding("wrong-class-bound", f"field {holder.__name__}.{fn}: annotation {c!r} (id {id(c):#x}) but decoded object is of {type(y)!r} (id {id(type(y)):#x})",
-                           entry=f"{holder.__name__}.from_dict", field=fn)
+                           entry=f"{holder.__name__}.from_dict", field=fn, ann=c, got=type(y))
 
 
 def _pairs(a, b):
@@ -624,3 +665,94 @@ def _pairs(a, b):
 
 def cleanup(sr: SchemaRun):
     sys.modules.pop(sr.schema["module"], None)
+
+
+# ---------------------------------------------------------------------------
+# classification of findings (signatures for known_findings.d/C17.json) - precise predicates
+# ---------------------------------------------------------------------------
+
+def _all_schema_classes(d: dict) -> list:
+    out = list(d.get("CLASSES", []))
+    for v in list(d.values()):
+        if isinstance(v, type) and v not in out:
+            out.append(v)
+    return out
+
+
+def classify(f: dict, d: dict, module: str) -> dict:
+    """-> signature dict {"kind", "cause", ...}; cause 'other' when no narrow predicate applies"""
+    kind = f["kind"]
+    name = f.get("name") or ""
+    classes = _all_schema_classes(d) if d else []
+    if kind == "wrong-class-bound":
+        a, b = f.get("ann"), f.get("got")
+        cause = "other"
+        if a is not None and b is not None and a is not b:
+            if rendered_name(a) == rendered_name(b):
+                cause = "same-qualname"
+            elif clean(rendered_name(a)) == clean(rendered_name(b)):
+                cause = "clean-id-collision"
+        return {"kind": "wrong-class-bound", "cause": cause}
+    if kind in ("static-unresolved-attr", "own-AttributeError") and name == "types.Dialect" and "default_dialect=types.Dialect" in (f.get("program") or f.get("what") or ""):
+        return {"kind": "unresolved-attr", "cause": "merged-dialect-not-importable"}
+    if kind in ("static-unresolved-attr", "own-AttributeError"):
+        cause = "other"
+        for c in classes:
+            rn = rendered_name(c)
+            if (rn == name or rn.startswith(name + ".") or name.startswith(rn + ".") or name == f"{c.__module__.split('.')[-1]}.{c.__qualname__.split('.')[0]}") and not reachable_by_name(c):
+                cause = "class-not-at-qualname"
+                break
+        if cause == "other" and kind == "own-AttributeError":
+            root = module.split(".")[0]
+            attr = name.split(".")[-1]
+            if root in SHADOWABLE and any(c.__qualname__.split(".")[0] == attr and c.__module__ == module for c in classes):
+                cause = "module-name-shadowed"
+                return {"kind": "unresolved-attr", "cause": cause, "module_root": root}
+        return {"kind": "unresolved-attr", "cause": cause}
+    if kind == "static-shadowed-module":
+        root = module.split(".")[0]
+        return {"kind": "unresolved-attr", "cause": "module-name-shadowed" if root in SHADOWABLE else "other", "module_root": root}
+    if kind in ("static-unresolved-name", "own-NameError", "own-UnboundLocalError"):
+        cause = "other"
+        if name.startswith("<forward-ref>"):
+            return {"kind": "unresolved-name", "cause": "forward-ref-evaluated-in-builder-globals"}
+        prog = f.get("program") or ""
+        if prog and name and _only_in_omit_default_tuple(prog, name):
+            return {"kind": "unresolved-name", "cause": "omit-default-tuple-repr"}
+        if any(getattr(c, "__supertype__", None) is not None and getattr(c, "__name__", None) == name for c in classes) \
+                and prog and f"is {name}:" in prog:
+            return {"kind": "unresolved-name", "cause": "newtype-in-union-bare-name"}
+        if name == types.MappingProxyType.__qualname__ and types.MappingProxyType.__module__ == "builtins" and not hasattr(builtins, name):
+            cause = "builtins-module-class"
+        else:
+            for c in classes:
+                if c.__module__.split(".")[0] == name and c.__module__ not in sys.modules:
+                    cause = "class-module-not-importable"
+                    break
+        return {"kind": "unresolved-name", "cause": cause, "name": name if cause != "class-module-not-importable" else "<module root>"}
+    if kind == "own-SyntaxError":
+        cause = "other"
+        if "collections.defaultdict(" in name and "<locals>" in name.split("collections.defaultdict(", 1)[1].split(",", 1)[0]:
+            cause = "defaultdict-factory-local"
+        elif name.lstrip().startswith("CodeBuilder(") and "<locals>" in name:
+            cause = "local-class-in-lazy-stub"
+        elif name.lstrip().startswith("if value != (") and " object at 0x" in name:
+            cause = "omit-default-tuple-repr"
+        return {"kind": "generated-syntax-error", "cause": cause}
+    return {"kind": kind, "cause": "other"}
+
+
+def _only_in_omit_default_tuple(prog: str, name: str) -> bool:
+    import re
+    hit = False
+    for ln in prog.splitlines():
+        if re.search(r"(?<![\w.])" + re.escape(name) + r"\b", ln):
+            if not ln.strip().startswith("if value != ("):
+                return False
+            hit = True
+    return hit
+
+
+# names that a schema module's top-level package may collide with: parameters / locals of the
+# generated functions and names pre-populated in the builder's globals
+SHADOWABLE = {"value", "d", "cls", "self", "dialect", "key", "kwargs", "m", "variant", "MISSING", "Field"}
